@@ -152,6 +152,27 @@ def shrink(tf, ck, case, k, still_diverges):
     return ops
 
 
+def sanitize_for(kw, x):
+    """F32 (known finding): with the csv option lineterminator = one line-break character, strings containing the OTHER one do not survive
+    (a property of the stdlib csv module); the generated histories replace that character for such a configuration"""
+    lt = (kw or {}).get("lineterminator")
+    if lt not in ("\n", "\r"):
+        return x
+    bad, good = ("\r", "r") if lt == "\n" else ("\n", "n")
+
+    def go(v):
+        if isinstance(v, str):
+            return v.replace(bad, good)
+        if isinstance(v, tuple):
+            return tuple(go(i) for i in v)
+        if isinstance(v, list):
+            return [go(i) for i in v]
+        if isinstance(v, dict):
+            return {go(k): go(i) for k, i in v.items()}
+        return v
+    return go(x)
+
+
 def default_kwargs_for(h):
     """storage options of generated history h when the check has none of its own: one CSV history in four is opened
     with access mode 'w+' (a fresh file either way; a reopen inside a history always uses the default mode)"""
@@ -173,7 +194,7 @@ def run_tie(ck, tf, n_hist, profile, configs=CONFIGS, corpus=(), kwargs_for=None
         kw = kwargs_for(h) if kwargs_for else None
         prof = dict(profile, storage_kwargs=kw) if kw is not None else profile
         g = dbgen.Gen((gen_seed << 20) + h, prof)
-        ops = g.history(csv)
+        ops = sanitize_for(kw if csv else None, g.history(csv))
         cases.append((csv, auto, ops, None))
         meta.append(("gen", h) if kw is None else ("gen", h, {k: str(v) for k, v in kw.items()}))
     for (csv, auto, ops) in extra_cases:
